@@ -22,13 +22,15 @@ func vhC02Engine() (*Engine, *ArrayLoader) {
 		"useslib":    "{% import 'lib' as l %}{{ l.m(x) }}",
 		"broken":     "{% if x %}{{ x }",
 		"usesbroken": "a{% include 'broken' %}",
+		// built-ins that draw on process-wide state (the random generator, the clock)
+		"builtins": "{% set r = random(5) %}{% set s = random() %}{% set t = random(2, 9) %}{{ 'now'|date('Y') > 2000 ? 'd' : 'D' }}{{ x }}",
 	})
 	e.RegisterLoader(al)
 	e.RegisterString("t", "a{{ x }}{% include 'inc' %}")
 	return e, al
 }
 
-var vhC02Ops = []string{"render-cached", "render-uncached", "render-relative-extends", "render-relative-include", "render-import", "load", "parse", "register", "renderto"}
+var vhC02Ops = []string{"render-cached", "render-uncached", "render-relative-extends", "render-relative-include", "render-import", "load", "parse", "register", "renderto", "render-builtins"}
 
 func vhC02Run(e *Engine, op int, x string) {
 	ctx := map[string]interface{}{"x": x}
@@ -43,6 +45,8 @@ func vhC02Run(e *Engine, op int, x string) {
 		e.Render("other/page", ctx)
 	case "render-import":
 		e.Render("useslib", ctx)
+	case "render-builtins":
+		e.Render("builtins", ctx)
 	case "load":
 		e.Load("fresh")
 	case "parse":
@@ -94,7 +98,7 @@ func VH_C02_Stress() {
 		e.SetAutoReload(true)
 	}
 	want := map[string]string{}
-	for _, n := range []string{"t", "fresh", "dir/child", "other/page", "useslib"} {
+	for _, n := range []string{"t", "fresh", "dir/child", "other/page", "useslib", "builtins"} {
 		o, _ := e.Render(n, map[string]interface{}{"x": "v"})
 		want[n] = o
 	}
@@ -103,7 +107,7 @@ func VH_C02_Stress() {
 		go func(g int) {
 			bad := ""
 			for i := 0; i < 150; i++ {
-				n := []string{"t", "fresh", "dir/child", "other/page", "useslib"}[(g+i)%5]
+				n := []string{"t", "fresh", "dir/child", "other/page", "useslib", "builtins"}[(g+i)%6]
 				o, err := e.Render(n, map[string]interface{}{"x": "v"})
 				if err != nil || o != want[n] {
 					bad = n
